@@ -1,4 +1,14 @@
 import GqlVerif.Proofs.C04Surjective
+/-!
+# C04 — `express_core`: a valid JSON value is the serialization of a value of the generated type
+
+`Expr L e r j out x` bundles what is shown at every position: `x` has the Rust type `r`, is written as `out` at every
+fuel `≥ valSize x`, is what `j` is read as at every fuel `≥ jsonSize j + 2` (integer IDs excluded), and `out` is in
+`serde_json::Value` normal form.  `express_core` proves `∃ x, Expr … j (canon j) x` by induction on the derivation of
+`Valid` — so recursive input types (boxed: `Box` is transparent, `expr_box`), lists of input objects and `@oneOf`
+members at any depth are covered by one argument.  `express_struct` / `express_oneOf` are the generic steps for a
+plain struct / an externally tagged enum over a field list; they are reused for `Variables` itself.
+-/
 namespace GqlVerif
 namespace C04S
 open Codegen Serde C13
@@ -762,7 +772,7 @@ theorem express_core (L : Leaves) (c : Ctx) (e : Env) (U : TypeId → Prop) (env
     rw [this, canon_obj_input _ _ _ _ _ _ hi, if_pos hone]
     obtain ⟨hp, hfind⟩ := env.inputs k i hU hi
     rw [inputItemSpec, if_pos hone] at hfind
-    obtain ⟨hUp, _, hwp, hnn⟩ := env.closed k i hU hi p hpm
+    obtain ⟨hUp, _, hwp, hnn, _⟩ := env.closed k i hU hi p hpm
     have hnames := env.fieldNames k i hU hi
     obtain ⟨x, hx⟩ := ih hUp (wf_nonNull_of hwp (hnn hone))
     have hck : canonKvs c.s c.o.skipNone i.fields [(p.1, v)] =
